@@ -28,6 +28,7 @@ EXPLANATION = (
     "'kept => overlap <= margin' and 'replace only on strictly better score' shapes. R13.3: best-of-group selections do "
     "not start from an arbitrary set element. R13.4: per-profile best hit keeps the maximum score and restores positional "
     "order. R13.5: the grouping sweep's running extent is a running maximum within a group."
+    ' R13.6: the fallback of remove_incomplete offers the fragment that maximises length / profile length, the measure its threshold applies to.'
 )
 UNDECIDED = [
     "optimality/completeness of the greedy single pass for chained overlaps",
